@@ -196,6 +196,7 @@ PROPS = {
         "module": "GoatProofs.C08", "facts": True,
         "theorems": ["Goat.C08.verifyDequeue_exact", "Goat.C08.processProposal_exact", "Goat.C08.accepted_wellformed", "Goat.C08.honest_accepted",
                      "Goat.C08.due_cap", "Goat.C08.no_conflicting_access"],
+        "race": {"stream": "app-proposal", "quick": 250, "thorough": 2500, "seeds": 4},
         "streams": [{"name": "app-proposal", "quick": 900, "thorough": 6000, "seeds": 12},
                     {"name": "app-proposal-shared", "quick": 400, "thorough": 2500, "seeds": 6}],
         "assumptions": ["the execution client's verdict on the payload is a scripted answer of the fake engine", "transaction decoding (protobuf, RLP of system transactions) is the real code's; the model sees canonical texts"],
